@@ -406,6 +406,38 @@ class Walk:
         if isinstance(f, ast.Name) and self.m.resolve(fi.module, f) is None:
             av, kv = args()
             return self._builtin(f.id, av, kv, e, fi, depth)
+        lib = self.m.resolve(fi.module, f) if isinstance(f, (ast.Name, ast.Attribute)) else None
+        if lib in self.LIBRARY:
+            av, kv = args()
+            return self._library(lib, av, kv, e, fi, depth)
+        raise Undecided(f'{fi.qualname}: call outside the evaluated vocabulary: {u(e)}')
+
+    LIBRARY = ('itertools.takewhile', 'itertools.dropwhile', 'itertools.filterfalse', 'itertools.islice', 'itertools.chain', 'collections.deque')
+
+    def _library(self, lib, av, kv, e, fi, depth):
+        """The few itertools / collections functions a lineage walk can be spelled with, with their documented meaning (lazy where the
+        library is lazy); predicates are lambdas / None."""
+        def pred_of(p):
+            if p is not None and not isinstance(p, _Closure):
+                raise Undecided(f'{fi.qualname}: {lib}() with a predicate that is not a lambda / None')
+            return (lambda x: self.truth(x)) if p is None else (lambda x: self.truth(self._apply(p, [x], {}, depth)))
+        if lib == 'itertools.takewhile' and len(av) == 2 and not kv:
+            ok = pred_of(av[0])
+            return itertools.takewhile(ok, self._iter(av[1]))
+        if lib == 'itertools.dropwhile' and len(av) == 2 and not kv:
+            return itertools.dropwhile(pred_of(av[0]), self._iter(av[1]))
+        if lib == 'itertools.filterfalse' and len(av) == 2 and not kv:
+            return itertools.filterfalse(pred_of(av[0]), self._iter(av[1]))
+        if lib == 'itertools.islice' and 2 <= len(av) <= 4 and not kv and all(x is None or isinstance(x, int) for x in av[1:]):
+            return itertools.islice(self._iter(av[0]), *av[1:])
+        if lib == 'itertools.chain' and not kv:
+            return itertools.chain(*[self._iter(x) for x in av])
+        if lib == 'collections.deque' and len(av) <= 1 and set(kv) <= {'maxlen'}:
+            n = kv.get('maxlen')
+            if n is not None and not (isinstance(n, int) and n >= 0):
+                raise Undecided(f'{fi.qualname}: deque(maxlen={n!r})')
+            items = [x for x in self._iter(av[0])] if av else []
+            return items if n is None else (items[-n:] if n else [])      # read-only use as a sequence (indexing, truth value, len, iteration)
         raise Undecided(f'{fi.qualname}: call outside the evaluated vocabulary: {u(e)}')
 
     def _apply(self, c, av, kv, depth):
@@ -422,7 +454,7 @@ class Walk:
     def _iter(self, v):
         if isinstance(v, (list, tuple)):
             return iter(v)
-        if isinstance(v, (types.GeneratorType, itertools.chain)) or type(v).__name__.endswith('iterator'):
+        if isinstance(v, (types.GeneratorType, itertools.chain, itertools.takewhile, itertools.dropwhile, itertools.filterfalse, itertools.islice)) or type(v).__name__.endswith('iterator'):
             return v
         raise _PyErr('TypeError', 'object is not iterable')
 
